@@ -143,6 +143,14 @@ int main() {
         } else if (w[0] == "defscript" && w.size() == 2 && parse_acts(w[1], acts)) {
             scripts.push_back(acts);
             std::cout << "P ret=" << scripts.size() - 1 << std::endl;
+        } else if (w[0] == "churn" && w.size() == 2 && vh::to_u64(w[1], n) && n >= 1 && n <= 70000) {
+            unsigned last = 0;                        // n times request(); cancel(id): moves the id counter, leaves nothing outstanding
+            for (uint64_t i = 0; i < n; ++i) { last = do_lookup(kNoScript); dns->cancel((DnsRequest::ReqId)last); }
+            std::cout << "P ret=" << last << std::endl;
+        } else if (w[0] == "burst" && w.size() == 2 && vh::to_u64(w[1], n) && n >= 1 && n <= 5000) {
+            unsigned last = 0;
+            for (uint64_t i = 0; i < n; ++i) last = do_lookup(kNoScript);
+            std::cout << "P ret=" << last << std::endl;
         } else if (w[0] == "touch" && w.size() == 2 && (w[1] == "on" || w[1] == "off")) {
             touch_captures = (w[1] == "on");
             std::cout << "P ret=0" << std::endl;
